@@ -291,6 +291,14 @@ let rec nat_of_int i = if i <= 0 then O else S (nat_of_int (i - 1))
 let rec val_size (v : val0) : int =
   match v with VNode (_, vs) -> List.fold_left (fun a x -> a + val_size x) 1 vs | _ -> 1
 
+(* nesting of a type expression: wrappers (Box, Option, ...) cost fuel without adding to the value's size *)
+let rec ty_depth (t : ty) : int =
+  match t with
+  | TPrim _ | TPhantom | TNamed _ -> 1
+  | TOption t | TWrap (_, t) | TSeq (_, t) -> 1 + ty_depth t
+  | TResult (a, b) | TMap (_, a, b) -> 2 + max (ty_depth a) (ty_depth b)
+  | TTuple ts -> 1 + List.fold_left (fun a x -> max a (ty_depth x)) 0 ts
+
 let err_class (e : err) : string =
   match e with
   | EUnsupportedCharacter -> "UnsupportedCharacter"
@@ -323,7 +331,7 @@ let cur_env : env ref = ref []
 let reader_env : env option ref = ref None
 
 let enc_model (t : ty) (v : val0) : string * n list option =
-  let fuel = nat_of_int (64 + 2 * val_size v) in
+  let fuel = nat_of_int (64 + 2 * val_size v + ty_depth t) in
   match enc fuel !cur_env t v [] with
   | Ok (b, _) -> ("ok " ^ hex b ^ " " ^ print_val !cur_env false t v, Some b)
   | Err e -> ("err " ^ err_class e, None)
@@ -335,7 +343,7 @@ let rec dec_model ?(extra = 0) ?(big = false) (t : ty) (bs : n list) : string =
   let len = List.length bs in
   (* sequences of zero-width elements need as much fuel as their count says (TermProofs): retry once with a
      fuel of 2^22 before reporting `fuel` *)
-  let fuel = nat_of_int (if big then 4194304 else 64 + 2 * len + extra) in
+  let fuel = nat_of_int (if big then 4194304 else 64 + 2 * len + extra + ty_depth t) in
   let a = match decodeA fuel !cur_env t bs [] with
     | Ok ((v, rest), _) -> "ok " ^ print_val !cur_env true t v ^ " " ^ string_of_int (List.length rest)
     | Err e -> "err " ^ err_class e
